@@ -1,6 +1,53 @@
-(* Ops/C16.v — protocol entry points for property C16 (stub until the model is built). *)
-From Coq Require Import List String.
-From PrefVerif Require Import Lib.Val.
-Import ListNotations.
+(* Ops/C16.v — protocol entry points for property C16 (autocorrect).
+   Instances are encoded as in Ops/C01.v (ordinal) and Ops/C08.v (categorical).
 
-Definition ops : optable := [].
+   c16.ord : (mode file_name data_type text) ->
+       ( parse(autocorrect=True)  parse(autocorrect=False)
+         expected = result ( ((order mult) ...) num_voters num_unique )      Model/Autocorrect.v: ord_expected
+         ((id raw_name) ...)                                                  raw_names of the header
+         clean  ids_distinct )
+   c16.cat : (mode file_name data_type text) ->
+       ( parse(True)  parse(False)  expected  ((id raw alt name) ...)  ((id raw cat name) ...)
+         clean  alt_ids_distinct  cat_ids_distinct )
+   mode 0 = file.readlines() (parse_file), 1 = str.splitlines() (parse_str), 2 = parse_url's lines *)
+From Coq Require Import List ZArith NArith String.
+From PrefVerif Require Import Lib.Val Lib.Dec Lib.PyStr Model.Meta Model.Autocorrect.
+From PrefVerif Require Model.OrdIO Model.CatIO Ops.C01 Ops.C08.
+Import ListNotations.
+Open Scope string_scope.
+
+Definition d_text (v : val) : text := dlist dN v.
+Definition e_text (t : text) : val := elist eN t.
+Definition e_ballot (b : list (list N)) : val := elist (elist eN) b.
+
+Definition cut (mode : nat) (s : text) : list text :=
+  match mode with 0 => readlines s | 1 => splitlines s | _ => urllines s end.
+
+Definition e_expected (x : list (list (list N) * N) * N * N) : val :=
+  let '(mu, nv, nu) := x in VL [elist (epair e_ballot eN) mu; eN nv; eN nu].
+
+Definition e_names (l : list (N * text)) : val := elist (epair eN e_text) l.
+
+Definition op_ord (v : val) : val :=
+  let m0 := set_file_name (meta0 (d_text (dnth 2 v))) (d_text (dnth 1 v)) in
+  let lines := cut (dnat (dnth 0 v)) (d_text (dnth 3 v)) in
+  VL [ eresult Ops.C01.e_inst (OrdIO.ord_parse true false m0 lines);
+       eresult Ops.C01.e_inst (OrdIO.ord_parse false false m0 lines);
+       eresult e_expected (ord_expected lines);
+       e_names (raw_names alt_name_prefix lines);
+       ebool (ord_clean m0 lines);
+       ebool (ids_distinct alt_name_prefix lines) ].
+
+Definition op_cat (v : val) : val :=
+  let m0 := set_file_name (meta0 (d_text (dnth 2 v))) (d_text (dnth 1 v)) in
+  let lines := cut (dnat (dnth 0 v)) (d_text (dnth 3 v)) in
+  VL [ eresult Ops.C08.e_cinst (CatIO.cat_parse true false m0 lines);
+       eresult Ops.C08.e_cinst (CatIO.cat_parse false false m0 lines);
+       eresult e_expected (cat_expected lines);
+       e_names (raw_names alt_name_prefix lines);
+       e_names (raw_names cat_name_prefix lines);
+       ebool (cat_clean m0 lines);
+       ebool (ids_distinct alt_name_prefix lines);
+       ebool (ids_distinct cat_name_prefix lines) ].
+
+Definition ops : optable := [ ("c16.ord", op_ord); ("c16.cat", op_cat) ].
